@@ -389,6 +389,11 @@ class HttpParser(abc.ABC, Generic[_MsgT]):
                     line = data[start_pos:pos]
                     if SEP == b"\n":  # For lax response parsing
                         line = line.rstrip(b"\r")
+                    elif not self._lines and b"\n" in line:
+                        # A bare LF is refused while the line is incomplete
+                        # (below), so refuse it in a complete start line too
+                        # (parse_headers refuses it in every other line).
+                        raise BadStatusLine(line.decode("utf-8", "surrogateescape"))
                     if len(line) > max_line_length:
                         raise LineTooLong(line[:100] + b"...", max_line_length)
 
